@@ -17,12 +17,12 @@ REACH = ["rate"]
 
 def floors(tier):
     q = tier == "quick"
-    return {"tau/per-call==model": 6000 if q else 120000, "limit/per-call==model": 6000 if q else 120000,
-            "omitted==explicit": 6000 if q else 120000, "tau=0": 1500 if q else 30000, "limit=False-over-True": 1500 if q else 30000}
+    return {"tau/per-call==model": 6000 if q else 960000, "limit/per-call==model": 6000 if q else 960000,
+            "omitted==explicit": 6000 if q else 960000, "tau=0": 1500 if q else 240000, "limit=False-over-True": 1500 if q else 240000}
 
 
 def generate(ctx):
-    n = ctx.budget(10000, 200000)
+    n = ctx.budget(10000, 1600000)
     for _ in range(n):
         cfg = gen.gen_cfg(ctx.rng)
         regime = ctx.rng.choice(["typical", "tiny_sigma", "wide", "mismatch", "equal_size", "identical"])
